@@ -20,6 +20,9 @@ type RetainedCase struct {
 	Tx    ref.Tx `json:"tx"`
 	Idx   []int  `json:"idx"`
 	Types []int  `json:"types"`
+	// Foreign[i] (may be absent or null): another exported method called before request i, its
+	// result written over by the caller (see foreign_test.go)
+	Foreign []*Foreign `json:"foreign,omitempty"`
 }
 
 func checkRetained(ctx *pbt.Ctx, c RetainedCase) error {
@@ -31,7 +34,16 @@ func checkRetained(ctx *pbt.Ctx, c RetainedCase) error {
 		idx, ht                      int
 	}
 	var ks []kept
+	var scribbled scribbler
+	defer scribbled.restore()
 	for i := range c.Idx {
+		if i < len(c.Foreign) && c.Foreign[i] != nil {
+			l, ferr := c.Foreign[i].run(tx, &scribbled)
+			if ferr != nil {
+				return ferr
+			}
+			ctx.Label(l)
+		}
 		idx := c.Idx[i] % len(m.In)
 		ht := c.Types[i] & 0xff
 		var k kept
@@ -106,7 +118,7 @@ func checkRetained(ctx *pbt.Ctx, c RetainedCase) error {
 
 func TestRetained(t *testing.T) {
 	pbt.Run(t, pbt.Sub[RetainedCase]{
-		Name: "retained", Quick: 8000, Thorough: 200000,
+		Name: "retained", Quick: 8000, Thorough: 200000, Precommit: true,
 		Gen: func(t *rapid.T) RetainedCase {
 			o := gen.TxOpts{MinIn: 1, MaxIn: 4, MinOut: 0, MaxOut: 4, MaxScript: 60, ScriptEdges: []int{0, 1, 25}}
 			c := RetainedCase{Tx: gen.Tx(t, o)}
@@ -114,6 +126,12 @@ func TestRetained(t *testing.T) {
 			for i := 0; i < n; i++ {
 				c.Idx = append(c.Idx, rapid.IntRange(0, 3).Draw(t, "idx"))
 				c.Types = append(c.Types, rapid.SampledFrom([]int{1, 1, 2, 3, 0x81, 0x82, 0x83, 4, 0x1f}).Draw(t, "type"))
+				var f *Foreign
+				if rapid.IntRange(0, 2).Draw(t, "foreign") == 0 {
+					g := genForeign(t)
+					f = &g
+				}
+				c.Foreign = append(c.Foreign, f)
 			}
 			return c
 		},
